@@ -291,6 +291,16 @@ theorem duration_roundtrip (d : Dur) (hv : d.Valid) (hmin : i64Min < d.secs ∨ 
 example : (⟨-5, -3⟩ : Dur).Valid ∧ (i64Min < (⟨-5, -3⟩ : Dur).secs ∨ 0 ≤ (⟨-5, -3⟩ : Dur).nanos) :=
   ⟨⟨by decide, by decide, by decide, by decide, by decide, by decide⟩, Or.inl (by decide)⟩
 
+/-- repair F12 (`duration_from_parts` refuses what `build` cannot re-encode): every duration / timestamp that `read`
+accepts lies in the domain of `duration_roundtrip` — it never has `i64::MIN` whole seconds with a negative sub-second
+part, so nothing accepted from the wire is later hashed or re-sent through the overflowing `seconds -= 1`. -/
+theorem duration_accepted_is_representable (s n : Int) (d : Dur) (h : durRead s n = .ok d) :
+    i64Min < d.secs ∨ 0 ≤ d.nanos :=
+  duration_read_representable s n d h
+
+example : durRead (i64Min + 1) (-1000000001) = .err ∧ durRead i64Min (-1) = .err ∧ durRead i64Min 0 = .ok ⟨i64Min, 0⟩ := by
+  decide
+
 /-- the corner the property excludes is excluded for a reason: `(i64::MIN s, −1 ns)` does not survive -/
 theorem duration_min_excluded :
     durRead (durBuild ⟨i64Min, -1⟩).1 (durBuild ⟨i64Min, -1⟩).2 ≠ .ok ⟨i64Min, -1⟩ :=
